@@ -186,7 +186,10 @@ def call_method(I, recv, name, argexprs, scope, frame, g, hint, e):
     # ---------------- Vec
     if isinstance(recv, (VecL, VecA)):
         if name == "push" or name == "push_back":
-            recv.push(g, arg())
+            val = arg()
+            if I.on_push is not None:
+                I.on_push(recv, g, val, scope, e)
+            recv.push(g, val)
             return UNIT
         if name in ("iter", "into_iter", "iter_mut"):
             return IterV(I.vec_items(recv, g) if isinstance(recv, VecL) else recv.items())
